@@ -699,7 +699,58 @@ fn main() {
             "false"
         }
     };
-    spawn_lean.push_str(&format!("  handleDropDetaches := {}\n\nend Hannibal\n", hdd));
+    spawn_lean.push_str(&format!("  handleDropDetaches := {}\n", hdd));
+    // per runtime: does the spawner install a detach closure, and is the runtime's task handle wrapped in a
+    // guard whose `Drop` detaches the task?  (what `Model/Spawn.lean` needs to know about *_spawner.rs)
+    let rts = [("tokio", "TokioSpawner", "tokio :: spawn ( future )"),
+               ("asyncStd", "AsyncStdSpawner", "async_std :: task :: spawn ( future )"),
+               ("smol", "SmolSpawner", "smol :: spawn ( future )")];
+    let mut det = String::from("  detachFn := fun\n");
+    let mut grd = String::from("  taskGuarded := fun\n");
+    let mut lazy_ok = true;
+    for (rt, sp, spawn_expr) in rts {
+        let key = format!("Spawner<A> for {}", sp);
+        let (b, w) = match f(&key, "spawn_actor") {
+            Some(k) => (k.0.clone(), at(k)),
+            None => (String::new(), String::new()),
+        };
+        let b = b.replace(" , )", " )");
+        let d = b.contains("with_detach_fn") || b.is_empty();
+        // a guard type `X` with `impl Drop for X { .. . detach ( ) .. }` wrapped directly around the spawned task,
+        // which the join future never moves out of the guard
+        let guarded = fns.map.iter().any(|(k, v)| {
+            k.1 == "drop" && k.0.starts_with("Drop for ") && v.0.contains(". detach ( )") && !v.0.contains("detach_fn") && {
+                let ty = k.0.trim_start_matches("Drop for ").split('<').next().unwrap_or("").trim().to_string();
+                !ty.is_empty()
+                    && b.contains(&format!("{} ( Some ( {} ) )", ty, spawn_expr))
+                    && !b.contains(". 0 . take ( )")
+                    && !b.contains("mem :: forget")
+            }
+        });
+        // the shape every spawner shares: the task handle sits in a shared slot, the join future is lazy and takes
+        // it out of the slot when it is first polled
+        let lazy = b.contains("Arc :: new ( async_lock :: Mutex :: new ( Some (")
+            && b.contains(spawn_expr)
+            && b.matches(spawn_expr).count() == 1
+            && b.contains("ActorHandle :: new ( move | | -> JoinFuture < A > {")
+            && b.contains("Box :: pin ( async move {")
+            && b.contains("= handle . lock ( ) . await . take ( ) ;");
+        lazy_ok &= lazy;
+        o.put(&format!("spawner.{}.detachFn", rt), if d { "true" } else { "false" }, w.clone());
+        o.put(&format!("spawner.{}.taskGuarded", rt), if guarded { "true" } else { "false" }, w.clone());
+        o.put(&format!("spawner.{}.lazySharedSlot", rt), if lazy { "true" } else { "false" }, w);
+        det.push_str(&format!("    | .{} => {}\n", rt, d));
+        grd.push_str(&format!("    | .{} => {}\n", rt, guarded));
+    }
+    spawn_lean.push_str(&det);
+    spawn_lean.push_str(&grd);
+    // `ActorHandle::join` only calls the join closure, `detach` only runs the detach closure
+    let join_plain = f("ActorHandle", "join").map(|k| k.0.ends_with("{ ( self . join_fn ) ( ) }")).unwrap_or(false)
+        && f("ActorHandle", "detach")
+            .map(|k| k.0.ends_with("{ if let Some ( detach_fn ) = self . detach_fn . take ( ) { detach_fn ( ) ; } }"))
+            .unwrap_or(false);
+    o.put("actorHandle.joinDetachPlain", if join_plain { "true" } else { "false" }, f("ActorHandle", "join").map(|k| at(k)).unwrap_or_default());
+    spawn_lean.push_str(&format!("  lazySharedSlot := {}\n  joinDetachPlain := {}\n\nend Hannibal\n", lazy_ok, join_plain));
     if let Some(dir) = Path::new(lean_out).parent() {
         let sp = dir.join("SpawnWiring.lean");
         let old = fs::read_to_string(&sp).unwrap_or_default();
